@@ -181,13 +181,18 @@ CHECKS = {
     ),
     "C15": (
         "exploration",
-        "consume-exactly differential monitor on the real frame decoder (part a)",
-        "DESIGN.md section 3 C15 (part a)",
+        "consume-exactly differential monitor on the real frame decoder + hostile scripted H2 peers against a live worker",
+        "DESIGN.md section 3 C15",
         "preface / frame_header / frame_body of the real parser on an exhaustive grid (20 types x 256 flags x 17 lengths x "
         "7 stream ids x 3 tail classes = 1.83M points), every prefix of well-formed frames, the repository's fuzz corpus "
         "and mutants, arbitrary bytes and concatenated streams: Ok must consume exactly 9 + declared length with fields "
-        "equal to an independent RFC 9113 decode, malformed sizes/padding must be errors, never a panic. Live hostile-"
-        "peer part (b) is not included yet.",
+        "equal to an independent RFC 9113 decode, malformed sizes/padding must be errors, never a panic. Part (b): hostile "
+        "H2 clients (TLS) and a hostile h2c backend against real workers - a 1296-point state-aware frame grid, floods at "
+        "0.5x/1x/2x of the configured thresholds, concurrency and header-list over-commit, slot recycling, invalid "
+        "prefaces, resets under socket back-pressure, vanishing clients, draining: the worker must not panic, must keep "
+        "answering Status and serving a probe connection, must release the hostile connection (hook footprint back to "
+        "baseline), must never over-commit at the backends, and must react with the RFC 9113 error class when a "
+        "conservative classifier says the class is unambiguous. Bounded-time misses are re-run alone twice.",
         "Trusted: the independent reference decode; both answers accepted where RFC 9113 leaves the layer open.",
     ),
     "C02": (
@@ -248,6 +253,21 @@ CHECKS = {
         "Trusted: the harness codec's ledger (self-tested against itself and sozu); sozu's reapers and flood guards are "
         "configured out of the way; known findings: MAX_CONCURRENT_STREAMS of a late SETTINGS, the cross-direction "
         "head-of-line deadlock, ACK overtaking framed DATA, the loop-budget close.",
+    ),
+    "C01": (
+        "exploration",
+        "byte-ledger monitor with self-describing bodies on scripted peers around a live worker",
+        "DESIGN.md section 3 C01",
+        "Scripted clients (H1/TCP, H1/TLS, H2/TLS with 1..32 interleaved streams) and scripted backends (H1, prior-"
+        "knowledge h2c) around real workers (half of the cells with minimal buffer_size, small pools and shrunk socket "
+        "buffers): uploads, downloads and both at once; Content-Length, chunked (chunk sizes incl. 1, 9, 16383..16385), "
+        "chunk extensions, trailers, close-delimited, H2 DATA with padding / empty frames / END_STREAM on HEADERS, last "
+        "DATA, empty DATA or trailers; sizes biased to buffer_size+-2, 16384+-9, 65535+-1, 2^n+-1 up to 8 MB (64 MB "
+        "thorough); keep-alive sequences and backend connection reuse; random I/O programs on all four sockets. Receivers "
+        "compare every byte with the sender's keystream (first bad offset localised), require clean termination whenever "
+        "the sender ended cleanly, and progress is decided on bytes (a stall is re-run alone before it counts).",
+        "Trusted: the harness's H1 reader and H2 codec; sozu-side EAGAIN/partial writes are counted by the hooks as "
+        "evidence of schedule diversity; early-response handling and a many-stream flow-control deadlock are known findings.",
     ),
 }
 
